@@ -94,7 +94,7 @@ impl Driver for C06 {
         "C06"
     }
     fn units(&self, tier: Tier) -> usize {
-        tier.pick(3200, 32000)
+        tier.pick(3200, 200000)
     }
     fn run_unit(&self, ctx: &Ctx, out: &mut UnitOut, _start: usize, only: Option<usize>) {
         let mut rng = unit_rng(ctx, "C06", out.unit);
@@ -186,7 +186,7 @@ impl Driver for C06 {
                 ("expands-like-unrolled:range-forms+for-declarations", 1000 * s),
                 ("empty-expansion", 100 * s),
             ],
-            min_nontrivial: 15000 * s,
+            min_nontrivial: 10000 * s,
         }
     }
 }
